@@ -401,17 +401,20 @@ tdigest<T, A> tdigest<T, A>::deserialize(std::istream& is, const A& allocator) {
     throw std::invalid_argument("preamble longs mismatch: expected " + std::to_string(expected_preamble_longs) + ", actual " + std::to_string(preamble_longs));
   }
   read<uint16_t>(is); // unused
+  if (!is.good()) throw std::runtime_error("error reading from std::istream");
 
   if (is_empty) return tdigest(k, allocator);
 
   const bool reverse_merge = flags_byte & (1 << flags::REVERSE_MERGE);
   if (is_single_value) {
     const T value = read<T>(is);
+    if (!is.good()) throw std::runtime_error("error reading from std::istream");
     return tdigest(reverse_merge, k, value, value, vector_centroid(1, centroid(value, 1), allocator), 1, vector_t(allocator));
   }
 
   const auto num_centroids = read<uint32_t>(is);
   const auto num_buffered = read<uint32_t>(is);
+  if (!is.good()) throw std::runtime_error("error reading from std::istream");
 
   const T min = read<T>(is);
   const T max = read<T>(is);
@@ -419,6 +422,7 @@ tdigest<T, A> tdigest<T, A>::deserialize(std::istream& is, const A& allocator) {
   if (num_centroids > 0) read(is, centroids.data(), num_centroids * sizeof(centroid));
   vector_t buffer(num_buffered, 0, allocator);
   if (num_buffered > 0) read(is, buffer.data(), num_buffered * sizeof(T));
+  if (!is.good()) throw std::runtime_error("error reading from std::istream");
   uint64_t weight = 0;
   for (const auto& c: centroids) weight += c.get_weight();
   return tdigest(reverse_merge, k, min, max, std::move(centroids), weight, std::move(buffer));
